@@ -2530,7 +2530,7 @@ impl Formatter {
       if i == 0 {
         src = format!("{}", s);
       } else {
-        src = format!("{},{}", src, s);
+        src = format!("{}, {}", src, s);
       }
     }
     if self.html {
@@ -2594,7 +2594,7 @@ impl Formatter {
       if i == 0 {
         src = format!("{}", s);
       } else {
-        src = format!("{},{}", src, s);
+        src = format!("{}, {}", src, s);
       }
     }
     if self.html {
